@@ -207,6 +207,10 @@ class SimKernel(object):
         return label
 
     # ------------------------------------------------------------------
+    def spawn_log_all(self):
+        """Every process of the table (workers and their descendants) in pid order."""
+        return [self.procs[k] for k in sorted(self.procs)]
+
     def running_workers(self):
         return [p for p in self.spawn_log if p.state == RUNNING and p.is_worker]
 
